@@ -804,7 +804,7 @@ bool QXmppStunMessage::decode(const QByteArray &buffer, const QByteArray &key, Q
             }
 
             // stop parsing, no more attributes are allowed
-            return true;
+            break;
 
         } else if (a_type == IceControlling) {
 
@@ -832,6 +832,17 @@ bool QXmppStunMessage::decode(const QByteArray &buffer, const QByteArray &key, Q
         }
         stream.skipRawData(pad_length);
         done += 4 + a_length + pad_length;
+    }
+
+    // With credentials in use, a request or success response without MESSAGE-INTEGRITY is not
+    // authenticated and must not be accepted (RFC 5389 10.1.2, 10.2.2). Error responses may come
+    // without it (401, 438, ...), and indications are not authenticated (RFC 5766 Data indications).
+    if (!key.isEmpty() && !after_integrity) {
+        const quint16 c = messageClass();
+        if (c != Error && c != Indication) {
+            *errors << u"Missing MESSAGE-INTEGRITY"_s;
+            return false;
+        }
     }
     return true;
 }
